@@ -141,6 +141,50 @@ func exprKeyMentions(key, token string) bool {
 	}
 }
 
+// optimizerFacts is a copy of what the optimizer believes at one program point.
+type optimizerFacts struct {
+	constants   map[string]ast.Literal
+	expressions map[string]string
+	copies      map[string]string
+}
+
+func (o *Optimizer) saveFacts() optimizerFacts {
+	f := optimizerFacts{
+		constants:   make(map[string]ast.Literal, len(o.constants)),
+		expressions: make(map[string]string, len(o.expressions)),
+		copies:      make(map[string]string, len(o.copies)),
+	}
+	for k, v := range o.constants {
+		f.constants[k] = v
+	}
+	for k, v := range o.expressions {
+		f.expressions[k] = v
+	}
+	for k, v := range o.copies {
+		f.copies[k] = v
+	}
+	return f
+}
+
+func (o *Optimizer) restoreFacts(f optimizerFacts) {
+	o.constants, o.expressions, o.copies = f.constants, f.expressions, f.copies
+}
+
+// optimizeNested optimizes a block that may run zero or several times (a
+// branch, a loop body). What is learnt inside holds inside only: afterwards
+// the optimizer knows what it knew before, minus everything the block may have
+// changed. Carrying the block's facts past its end made
+// `$ i = 0  while false { i = 9 }  > i` return 9.
+func (o *Optimizer) optimizeNested(block []ast.Statement) []ast.Statement {
+	before := o.saveFacts()
+	out := o.OptimizeStatements(block)
+	o.restoreFacts(before)
+	for name := range getModifiedVariables(block) {
+		o.forget(name)
+	}
+	return out
+}
+
 // OptimizeStatements optimizes a list of statements
 func (o *Optimizer) OptimizeStatements(stmts []ast.Statement) []ast.Statement {
 	if o.level == OptNone {
@@ -314,11 +358,19 @@ func (o *Optimizer) OptimizeStatements(stmts []ast.Statement) []ast.Statement {
 				}
 			}
 
-			// Not a constant condition - optimize both branches
+			// Not a constant condition - optimize both branches, each from the
+			// facts that hold before the if
+			before := o.saveFacts()
+			thenBlock := o.optimizeNested(s.ThenBlock)
+			o.restoreFacts(before)
+			elseBlock := o.optimizeNested(s.ElseBlock)
+			for name := range getModifiedVariables(s.ThenBlock) {
+				o.forget(name)
+			}
 			optimized := &ast.IfStatement{
 				Condition: condition,
-				ThenBlock: o.OptimizeStatements(s.ThenBlock),
-				ElseBlock: o.OptimizeStatements(s.ElseBlock),
+				ThenBlock: thenBlock,
+				ElseBlock: elseBlock,
 			}
 			result = append(result, optimized)
 
@@ -327,9 +379,7 @@ func (o *Optimizer) OptimizeStatements(stmts []ast.Statement) []ast.Statement {
 			// because the loop may execute multiple times or not at all
 			modifiedVars := getModifiedVariables(s.Body)
 			for varName := range modifiedVars {
-				delete(o.constants, varName)
-				delete(o.copies, varName)
-				delete(o.expressions, varName)
+				o.forget(varName)
 			}
 
 			// Loop invariant code motion (OptAggressive only)
@@ -367,7 +417,7 @@ func (o *Optimizer) OptimizeStatements(stmts []ast.Statement) []ast.Statement {
 			// Optimize condition and remaining loop body
 			optimized := &ast.WhileStatement{
 				Condition: o.OptimizeExpression(s.Condition),
-				Body:      o.OptimizeStatements(loopBody),
+				Body:      o.optimizeNested(loopBody),
 			}
 			result = append(result, optimized)
 
@@ -376,17 +426,13 @@ func (o *Optimizer) OptimizeStatements(stmts []ast.Statement) []ast.Statement {
 			// because the loop may execute multiple times or not at all
 			modifiedVars := getModifiedVariables(s.Body)
 			for varName := range modifiedVars {
-				delete(o.constants, varName)
-				delete(o.copies, varName)
-				delete(o.expressions, varName)
+				o.forget(varName)
 			}
 			// Also invalidate the loop variables themselves
 			if s.KeyVar != "" {
-				delete(o.constants, s.KeyVar)
-				delete(o.copies, s.KeyVar)
+				o.forget(s.KeyVar)
 			}
-			delete(o.constants, s.ValueVar)
-			delete(o.copies, s.ValueVar)
+			o.forget(s.ValueVar)
 			// Add the for statement unchanged (could optimize body in future)
 			result = append(result, s)
 
@@ -394,16 +440,12 @@ func (o *Optimizer) OptimizeStatements(stmts []ast.Statement) []ast.Statement {
 			// Same as *ast.ForStatement
 			modifiedVars := getModifiedVariables(s.Body)
 			for varName := range modifiedVars {
-				delete(o.constants, varName)
-				delete(o.copies, varName)
-				delete(o.expressions, varName)
+				o.forget(varName)
 			}
 			if s.KeyVar != "" {
-				delete(o.constants, s.KeyVar)
-				delete(o.copies, s.KeyVar)
+				o.forget(s.KeyVar)
 			}
-			delete(o.constants, s.ValueVar)
-			delete(o.copies, s.ValueVar)
+			o.forget(s.ValueVar)
 			result = append(result, &s)
 
 		case *ast.SwitchStatement:
@@ -412,18 +454,14 @@ func (o *Optimizer) OptimizeStatements(stmts []ast.Statement) []ast.Statement {
 			for _, switchCase := range s.Cases {
 				modifiedVars := getModifiedVariables(switchCase.Body)
 				for varName := range modifiedVars {
-					delete(o.constants, varName)
-					delete(o.copies, varName)
-					delete(o.expressions, varName)
+					o.forget(varName)
 				}
 			}
 			// Also invalidate variables modified in the default case
 			if len(s.Default) > 0 {
 				modifiedVars := getModifiedVariables(s.Default)
 				for varName := range modifiedVars {
-					delete(o.constants, varName)
-					delete(o.copies, varName)
-					delete(o.expressions, varName)
+					o.forget(varName)
 				}
 			}
 			result = append(result, s)
@@ -433,17 +471,13 @@ func (o *Optimizer) OptimizeStatements(stmts []ast.Statement) []ast.Statement {
 			for _, switchCase := range s.Cases {
 				modifiedVars := getModifiedVariables(switchCase.Body)
 				for varName := range modifiedVars {
-					delete(o.constants, varName)
-					delete(o.copies, varName)
-					delete(o.expressions, varName)
+					o.forget(varName)
 				}
 			}
 			if len(s.Default) > 0 {
 				modifiedVars := getModifiedVariables(s.Default)
 				for varName := range modifiedVars {
-					delete(o.constants, varName)
-					delete(o.copies, varName)
-					delete(o.expressions, varName)
+					o.forget(varName)
 				}
 			}
 			result = append(result, &s)
@@ -875,10 +909,25 @@ func getModifiedVariablesInStmt(stmt ast.Statement, modified map[string]bool) {
 		for _, elseStmt := range s.ElseBlock {
 			getModifiedVariablesInStmt(elseStmt, modified)
 		}
+	case ast.IfStatement:
+		getModifiedVariablesInStmt(&s, modified)
 	case *ast.WhileStatement:
 		for _, bodyStmt := range s.Body {
 			getModifiedVariablesInStmt(bodyStmt, modified)
 		}
+	case ast.WhileStatement:
+		getModifiedVariablesInStmt(&s, modified)
+	case *ast.SwitchStatement:
+		for _, switchCase := range s.Cases {
+			for _, bodyStmt := range switchCase.Body {
+				getModifiedVariablesInStmt(bodyStmt, modified)
+			}
+		}
+		for _, bodyStmt := range s.Default {
+			getModifiedVariablesInStmt(bodyStmt, modified)
+		}
+	case ast.SwitchStatement:
+		getModifiedVariablesInStmt(&s, modified)
 	case *ast.ForStatement:
 		// Mark loop variables as modified
 		modified[s.ValueVar] = true
